@@ -10,3 +10,4 @@ CONSTANTS
  MaxCalls = 4
  Budget = 30
  WithRecv = TRUE
+ Fam = "size"
